@@ -91,7 +91,9 @@ def runtime_units():
 
 
 def flags(config):
-    f = ["-std=c99", "-I" + SRC, "-DVCSVERSION=\"verif\"", "-w"]
+    # __NO_CTYPE: glibc then declares isdigit()/tolower() as functions instead of expanding them to its
+    # internal table look-ups, so the trees name the ISO C function (same semantics by the C standard).
+    f = ["-std=c99", "-I" + SRC, "-DVCSVERSION=\"verif\"", "-w", "-D__NO_CTYPE"]
     if config == "runtime":
         f.append("-DFOAM_RTS")
     return f
@@ -659,7 +661,8 @@ class Report:
         os.makedirs(EVID, exist_ok=True)
         for v in self.known_hits:
             print("KNOWN-FINDING: property=%s %s -- %s (%s)" % (self.pid, v["key"], v["message"], v["where"]))
-        replay = os.path.join(OUT, "%s.violations.json" % self.pid)
+        noev = bool(os.environ.get("VERIF_NO_EVIDENCE"))
+        replay = os.path.join(OUT, "%s.violations%s.json" % (self.pid, ".selftest" if noev else ""))
         if self.violations:
             with open(replay, "w") as f:
                 json.dump({"property": self.pid, "violations": self.violations}, f, indent=1)
@@ -695,8 +698,9 @@ class Report:
             "wall_s": round(wall, 3),
             "violations": len(self.violations),
         }
-        with open(os.path.join(EVID, "%s.json" % self.pid), "w") as f:
-            json.dump(ev, f, indent=1)
+        if not noev:
+            with open(os.path.join(EVID, "%s.json" % self.pid), "w") as f:
+                json.dump(ev, f, indent=1)
         print("%s: %d obligations over %s; %d discharged, %d known findings, %d violations (%.1fs)" % (
             self.pid, self.obligations, json.dumps(self.rule_counts), self.discharged,
             len(self.known_hits), len(self.violations), wall))
